@@ -29,6 +29,10 @@ AllSits == {s \in Raw : /\ ~(s.input \in {"missing", "directory"} /\ s.channel \
            \cup {S("nonascii", c, f, "none") : c \in {"path", "stdin"}, f \in {"json", "csv"}} \cup EnvSits
 \* outside faults (C20): every situation here is replayed alone, and some of them among other processes
 FaultSits == {([fault |-> f] @@ S(i, c, "json", "none")) : i \in {"ok", "syntax"}, c \in {"path", "stdin"}, f \in {"sigint", "fsize"}}
+             \cup {([fault |-> f] @@ S("ok", c, "json", "none")) : c \in {"path", "stdin"}, f \in {"sigterm", "sighup"}}
+             \* (JSON only: the final file is 38 bytes longer than the one in the temp directory -- the hash instead of the random
+             \* report id -- so a file size limit between the two lets everything succeed but the last write)
+             \cup {([fault |-> "fsizeout"] @@ SO("ok", c, "json", "none", w)) : c \in {"path", "stdin"}, w \in {"newfile", "force"}}
 \* three concurrent processes (C20): a representative mix incl. failing ones
 ConcSits == {S("ok", "path", "json", "json"), S("ok", "stdin", "json", "none"), S("syntax", "path", "csv", "both"),
              S("empty", "stdin", "json", "none"), SO("ok", "path", "csv", "csv", "exists"),
